@@ -16,6 +16,8 @@ import (
 	"bufio"
 	"bytes"
 	"context"
+	"crypto/tls"
+	"crypto/x509"
 	"encoding/base64"
 	"fmt"
 	"io"
@@ -73,6 +75,9 @@ type server struct {
 	streams [][]item
 	commits []commit
 	auths   []authRec
+	tlsCfg  *tls.Config // non-nil: advertise STARTTLS
+	tlsDone []bool      // per connection: STARTTLS handshake completed
+	tlsErrs []string
 	authOn  bool // advertise and require AUTH
 	scram1  saslx.Stored
 	scram2  saslx.Stored
@@ -87,12 +92,12 @@ var (
 	reMark = regexp.MustCompile(`MARK-(\d+)-`)
 )
 
-func newServer(seed int64, jitter int, authOn bool) (*server, error) {
+func newServer(seed int64, jitter int, authOn bool, tlsCfg *tls.Config) (*server, error) {
 	ln, err := net.Listen("tcp", "127.0.0.1:0")
 	if err != nil {
 		return nil, err
 	}
-	s := &server{ln: ln, seed: seed, jitter: jitter, authOn: authOn}
+	s := &server{ln: ln, seed: seed, jitter: jitter, authOn: authOn, tlsCfg: tlsCfg}
 	if authOn {
 		s.scram1 = saslx.Store(saslx.SHA1, authPass, []byte("c13-salt-sha1"), 256)
 		s.scram2 = saslx.Store(saslx.SHA256, authPass, []byte("c13-salt-sha256"), 256)
@@ -112,6 +117,7 @@ func (s *server) accept() {
 		s.mu.Lock()
 		idx := len(s.streams)
 		s.streams = append(s.streams, nil)
+		s.tlsDone = append(s.tlsDone, false)
 		s.mu.Unlock()
 		s.wg.Add(1)
 		go s.serve(c, idx)
@@ -129,6 +135,7 @@ func (s *server) serve(c net.Conn, idx int) {
 	defer c.Close()
 	rng := rand.New(rand.NewSource(s.seed*1000003 + int64(idx)))
 	rd := bufio.NewReader(c)
+	isTLS := false
 	reply := func(line string) bool {
 		if s.jitter > 0 && rng.Intn(4) != 0 {
 			time.Sleep(time.Duration(rng.Intn(s.jitter)) * time.Microsecond)
@@ -154,12 +161,34 @@ func (s *server) serve(c net.Conn, idx int) {
 		case strings.HasPrefix(up, "EHLO"), strings.HasPrefix(up, "HELO"):
 			s.record(idx, item{'H', 0})
 			caps := "250-c13.test\r\n250-8BITMIME\r\n"
+			if s.tlsCfg != nil && !isTLS {
+				caps += "250-STARTTLS\r\n"
+			}
 			if s.authOn {
 				caps += "250-AUTH PLAIN LOGIN CRAM-MD5 SCRAM-SHA-1 SCRAM-SHA-256\r\n"
 			}
 			if !reply(caps + "250 ENHANCEDSTATUSCODES") {
 				return
 			}
+		case up == "STARTTLS" && s.tlsCfg != nil && !isTLS:
+			if !reply("220 2.0.0 ready to start TLS") {
+				return
+			}
+			tc := tls.Server(c, s.tlsCfg)
+			_ = tc.SetDeadline(time.Now().Add(8 * time.Second))
+			if err := tc.Handshake(); err != nil {
+				s.mu.Lock()
+				s.tlsErrs = append(s.tlsErrs, fmt.Sprintf("conn %d: %v", idx, err))
+				s.mu.Unlock()
+				return
+			}
+			_ = tc.SetDeadline(time.Time{})
+			c, rd, isTLS = tc, bufio.NewReader(tc), true
+			mailID, rcpts = 0, nil
+			s.mu.Lock()
+			s.streams[idx] = nil // RFC 3207: the session starts over; the compared stream is the one inside TLS
+			s.tlsDone[idx] = true
+			s.mu.Unlock()
 		case strings.HasPrefix(up, "AUTH "):
 			if !s.authExchange(idx, line, rd, rng, reply, c) {
 				return
@@ -408,6 +437,7 @@ type spec struct {
 	jseed  int64
 	mech   string // "" = no SMTP auth; plain login cram scram1 scram256 auto
 	warm   bool   // DialAndSend-only rounds: one sequential DialWithContext+Close before the concurrent calls
+	tls    string // "" = NoTLS; o/m = STARTTLS opportunistic/mandatory with a caller-supplied tls.Config WITHOUT ServerName; O/M = with ServerName and verification
 }
 
 var authTypes = map[string]mail.SMTPAuthType{"plain": mail.SMTPAuthPlain, "login": mail.SMTPAuthLogin,
@@ -417,14 +447,23 @@ var authTypes = map[string]mail.SMTPAuthType{"plain": mail.SMTPAuthPlain, "login
 func parseSpec(c hx.Case) (spec, error) {
 	var sp spec
 	kp := strings.Split(c.Kind, ":")
-	if kp[0] != "mixed" || len(c.Args) < 4 || (len(kp) != 1 && len(kp) != 3) {
+	if kp[0] != "mixed" || len(c.Args) < 4 || (len(kp) != 1 && len(kp) != 3 && len(kp) != 4) {
 		return sp, fmt.Errorf("bad case %q", c.Line())
 	}
-	if len(kp) == 3 {
-		if _, ok := authTypes[kp[1]]; !ok {
+	if len(kp) >= 3 {
+		if _, ok := authTypes[kp[1]]; !ok && kp[1] != "none" {
 			return sp, fmt.Errorf("unknown auth mechanism %q", kp[1])
 		}
 		sp.mech, sp.warm = kp[1], kp[2] == "1"
+		if sp.mech == "none" {
+			sp.mech = ""
+		}
+	}
+	if len(kp) == 4 {
+		if !strings.Contains("omOM", kp[3]) || len(kp[3]) != 1 {
+			return sp, fmt.Errorf("unknown tls mode %q", kp[3])
+		}
+		sp.tls = kp[3]
 	}
 	var err error
 	if sp.ns, err = strconv.Atoi(c.Args[0]); err != nil {
@@ -484,6 +523,12 @@ type result struct {
 	fails      []failure
 }
 
+// tlsSnapshot renders the fields of a tls.Config a client library has no business changing.
+func tlsSnapshot(c *tls.Config) string {
+	return fmt.Sprintf("ServerName=%q InsecureSkipVerify=%v MinVersion=%d MaxVersion=%d RootCAs=%p Certificates=%d NextProtos=%v CipherSuites=%v ClientAuth=%d",
+		c.ServerName, c.InsecureSkipVerify, c.MinVersion, c.MaxVersion, c.RootCAs, len(c.Certificates), c.NextProtos, c.CipherSuites, c.ClientAuth)
+}
+
 func buildMsg(id, nrcpt int, rng *rand.Rand) (*mail.Msg, error) {
 	m := mail.NewMsg()
 	if err := m.From(fmt.Sprintf("s%d@c13.test", id)); err != nil {
@@ -517,15 +562,50 @@ func runRound(sp spec) (res result) {
 	procs := []int{1, 2, 4, 8, 16, 16}[rng.Intn(6)]
 	runtime.GOMAXPROCS(procs)
 	jmax := []int{0, 60, 150 + rng.Intn(400), 150 + rng.Intn(400), 1500}[rng.Intn(5)]
-	srv, err := newServer(sp.jseed, jmax, sp.mech != "")
+	var srvTLS, callerTLS *tls.Config
+	callerSnap := ""
+	if sp.tls != "" {
+		var terr error
+		if srvTLS, terr = saslx.ServerTLSConfig(0); terr != nil {
+			fail("harness-tls", "%v", terr)
+			res.observable = "HARNESS-ERROR"
+			return
+		}
+		// the CALLER's config, handed to the Client once and used by every connection it dials
+		if sp.tls == "o" || sp.tls == "m" {
+			callerTLS = &tls.Config{InsecureSkipVerify: true, MinVersion: tls.VersionTLS12}
+		} else {
+			leaf, perr := x509.ParseCertificate(srvTLS.Certificates[0].Certificate[0])
+			if perr != nil {
+				fail("harness-tls", "%v", perr)
+				res.observable = "HARNESS-ERROR"
+				return
+			}
+			pool := x509.NewCertPool()
+			pool.AddCert(leaf)
+			callerTLS = &tls.Config{RootCAs: pool, ServerName: "localhost", MinVersion: tls.VersionTLS12}
+		}
+		callerSnap = tlsSnapshot(callerTLS)
+	}
+	srv, err := newServer(sp.jseed, jmax, sp.mech != "", srvTLS)
 	if err != nil {
 		fail("harness-listen", "%v", err)
 		res.observable = "HARNESS-ERROR"
 		return
 	}
 	defer srv.stop()
-	opts := []mail.Option{mail.WithPort(srv.port()), mail.WithTLSPolicy(mail.NoTLS),
+	policy := mail.NoTLS
+	switch sp.tls {
+	case "o", "O":
+		policy = mail.TLSOpportunistic
+	case "m", "M":
+		policy = mail.TLSMandatory
+	}
+	opts := []mail.Option{mail.WithPort(srv.port()), mail.WithTLSPolicy(policy),
 		mail.WithHELO("c13.test"), mail.WithTimeout(5 * time.Second)}
+	if callerTLS != nil {
+		opts = append(opts, mail.WithTLSConfig(callerTLS))
+	}
 	if sp.mech != "" {
 		opts = append(opts, mail.WithSMTPAuth(authTypes[sp.mech]), mail.WithUsername(authUser), mail.WithPassword(authPass))
 	}
@@ -602,7 +682,24 @@ func runRound(sp spec) (res result) {
 	streams := srv.streams
 	commits := srv.commits
 	auths := srv.auths
+	tlsDone := srv.tlsDone
+	tlsErrs := srv.tlsErrs
 	srv.mu.Unlock()
+
+	// ---- STARTTLS: every connection was upgraded, and the CALLER's tls.Config is what it was before the round
+	if sp.tls != "" {
+		for _, e := range tlsErrs {
+			fail("starttls-handshake", "%s (tls mode %s)", e, sp.tls)
+		}
+		for ci := range streams {
+			if ci < len(tlsDone) && !tlsDone[ci] {
+				fail("starttls-missing", "conn %d was not upgraded with STARTTLS although the policy is %s and the server offers it", ci, policy)
+			}
+		}
+		if now := tlsSnapshot(callerTLS); now != callerSnap {
+			fail("caller-tlsconfig-modified", "the tls.Config passed to WithTLSConfig was modified by the Client: before {%s} after {%s}", callerSnap, now)
+		}
+	}
 
 	// ---- every AUTH exchange the server saw is well-formed and accepted; every connection authenticates once
 	authCount := map[int]int{}
@@ -817,7 +914,7 @@ func serialCheck(st []item, sp spec) bool {
 // generation, worker protocol
 
 func genCases(r *hx.Run) []hx.Case {
-	rounds := 72
+	rounds := 80
 	if r.Tier == "thorough" {
 		rounds = 2000
 	}
@@ -831,7 +928,9 @@ func genCases(r *hx.Run) []hx.Case {
 		kind  string
 	}{{2, 2, "mixed"}, {64, 0, "mixed"}, {16, 7, "mixed"},
 		{12, 0, "mixed:login:0"}, {12, 0, "mixed:login:1"}, {12, 0, "mixed:scram256:1"}, {16, 0, "mixed:auto:0"},
-		{8, 0, "mixed:plain:0"}, {8, 0, "mixed:cram:1"}, {8, 3, "mixed:login:0"}, {32, 0, "mixed:scram1:0"}, {8, 8, "mixed:scram256:0"}}
+		{8, 0, "mixed:plain:0"}, {8, 0, "mixed:cram:1"}, {8, 3, "mixed:login:0"}, {32, 0, "mixed:scram1:0"}, {8, 8, "mixed:scram256:0"},
+		// STARTTLS with a caller-supplied tls.Config shared by all connections of the Client
+		{12, 0, "mixed:none:0:m"}, {12, 0, "mixed:login:0:o"}, {8, 0, "mixed:none:0:M"}, {8, 3, "mixed:plain:0:O"}, {16, 0, "mixed:scram256:1:m"}, {6, 6, "mixed:none:0:o"}}
 	var out []hx.Case
 	for k := 0; k < rounds; k++ {
 		n := sizes[r.Rng.Intn(len(sizes))]
@@ -847,6 +946,12 @@ func genCases(r *hx.Run) []hx.Case {
 		kind := "mixed"
 		if r.Rng.Intn(5) < 3 { // 60 % of the generated rounds run with SMTP auth configured
 			kind = fmt.Sprintf("mixed:%s:%d", mechs[r.Rng.Intn(len(mechs))], r.Rng.Intn(2))
+		}
+		if r.Rng.Intn(20) < 7 { // 35 % of the generated rounds run over STARTTLS
+			if kind == "mixed" {
+				kind = "mixed:none:" + strconv.Itoa(r.Rng.Intn(2))
+			}
+			kind += ":" + string("omOM"[r.Rng.Intn(4)])
 		}
 		if r.Tier == "thorough" && kind != "mixed" {
 			// schedule search on the auth rounds: mostly DialAndSend-only shapes with many goroutines
@@ -994,6 +1099,9 @@ func Run(r *hx.Run, replay []hx.Case) {
 				sp, _ := parseSpec(c)
 				r.Add(c, t[3], sp.ns+sp.nd >= 2)
 				r.Dist[fmt.Sprintf("goroutines<=%d", bucket(sp.ns+sp.nd))]++
+				if sp.tls != "" {
+					r.Dist["starttls:"+sp.tls]++
+				}
 				if sp.mech != "" {
 					r.Dist["auth:"+sp.mech]++
 					if sp.ns == 0 {
